@@ -16,8 +16,14 @@ func histGen(focus string, quickN, thoroughN, maxLen, byteEvery int) func(seed i
 		}
 		r := rand.New(rand.NewSource(seed))
 		var out []caseOut
-		for i := 0; i < n; i++ {
+		scripts := systematicScripts(focus)
+		for i := 0; i < n+len(scripts); i++ {
+			histScript = nil
+			if i >= n {
+				histScript = scripts[i-n]
+			}
 			c, cfgs := genHistory(r, focus, maxLen)
+			histScript = nil
 			runHistory(c, cfgs)
 			if byteEvery > 0 && i%byteEvery == 0 {
 				for _, s := range c.Steps {
